@@ -47,17 +47,79 @@ fn free_running(ctx: &mut Ctx, threads: usize, calls: usize) {
     }
 }
 
+/// Deterministic histories that do not depend on the schedule: threads that run one after the other, a
+/// long run of calls from one thread (beyond 2^16 and 2^17 calls), and files that already exist under the
+/// names an implementation is about to hand out (the file system as an environment answer).
+fn histories(ctx: &mut Ctx) {
+    let case = || json!({"Histories": "sequential threads + long run + pre-existing files"});
+    ctx.announce(case);
+    ctx.nontrivial(&"histories");
+    let got = guard(|| {
+        let mut all: HashSet<std::path::PathBuf> = HashSet::new();
+        let mut dup: Option<String> = None;
+        let mut created: Vec<std::path::PathBuf> = Vec::new();
+        let mut take = |p: std::path::PathBuf, all: &mut HashSet<std::path::PathBuf>, dup: &mut Option<String>| {
+            if !all.insert(p.clone()) && dup.is_none() {
+                *dup = Some(p.to_string_lossy().to_string());
+            }
+        };
+        take(temp_file_name("hist"), &mut all, &mut dup);
+        // three threads, one after the other, a few names each
+        for _ in 0..3 {
+            let names = std::thread::spawn(|| (0..3).map(|_| temp_file_name("hist")).collect::<Vec<_>>()).join().unwrap();
+            for p in names {
+                take(p, &mut all, &mut dup);
+            }
+        }
+        // Pre-existing files: learn the naming scheme from one name, then create the files that the next
+        // few counter values would name (only if the name ends in a decimal counter).
+        let probe = temp_file_name("hist");
+        take(probe.clone(), &mut all, &mut dup);
+        let s = probe.to_string_lossy().to_string();
+        if let Some(pos) = s.rfind('_') {
+            if let Ok(k) = s[pos + 1..].parse::<u64>() {
+                for d in 1..=4u64 {
+                    let f = std::path::PathBuf::from(format!("{}_{}", &s[..pos], k + d));
+                    if std::fs::write(&f, b"x").is_ok() {
+                        created.push(f);
+                    }
+                }
+            }
+        }
+        for _ in 0..12 {
+            take(temp_file_name("hist"), &mut all, &mut dup);
+        }
+        // a long run from one thread
+        for _ in 0..140_000 {
+            take(temp_file_name("hist"), &mut all, &mut dup);
+        }
+        let names = std::thread::spawn(|| (0..70_000).map(|_| temp_file_name("hist")).collect::<Vec<_>>()).join().unwrap();
+        for p in names {
+            take(p, &mut all, &mut dup);
+        }
+        for f in created {
+            let _ = std::fs::remove_file(f);
+        }
+        (dup, all.len())
+    });
+    ctx.evals_add(210_000);
+    ctx.expect(|| "temp_file_name[sequential threads, long run, pre-existing files]".to_string(), got.map(|(d, _)| d), &None, case);
+}
+
 fn explore(ctx: &mut Ctx) {
     if !ctx.mine_index(0) {
         return;
     }
     sequential(ctx);
+    histories(ctx);
     let calls = ctx.tier.pick(20_000, 200_000);
     free_running(ctx, 8, calls);
 }
 
 fn replay(ctx: &mut Ctx, v: &Value) {
-    if v.get("Sequential").is_some() {
+    if v.get("Histories").is_some() {
+        histories(ctx);
+    } else if v.get("Sequential").is_some() {
         sequential(ctx);
     } else {
         let t = v["FreeRunning"]["threads"].as_u64().unwrap_or(8) as usize;
